@@ -7,7 +7,7 @@ PROP = "C17"
 CMDS = ["python train.py", "echo 'a' \"b\" > out", "a: b", "- x", "#not a comment", "line1\nline2\n  indented", "  padded  ", "\tTab", "null", "~", "true", "1e3",
         "{x: y}", "[1,2]", "&anchor *alias", "!tag", "|", ">", "%dir", "@at", "`bt`", "é ü 日本", "a\\b", "back\\", "key: |\n  block", "'", "\"", "x # y",
         "trailing:", "multi\n\nblank", "co:lon", "? q", "!!str 5", "0x1f", "yes", "no", "on", "1_000", "12:30:00", "2001-01-01", ".inf", "<<", "=", " nbsp ",
-        " ls", "cmd \\\n  continued", "$(sub) ${var}", "a" * 300]
+        " ls", "cmd \\\n  continued", "$(sub) ${var}", "a" * 300, "cat > p.yaml <<END\ntrain: {}\nEND", "x: {}", "k: []\nj: {}\n", "a:\n", "key:", "echo '{}'", "list:\n- a\n- b", "---", "...", "--- |", "a: &x {}\nb: *x"]
 KEYS = ["data/out.txt", "null", "true", "~", "1e3", "a b", " lead", "trail ", "a: b", "#c", "{x}", "[y]", "&a", "*b", "!t", "|", ">", "é", "日本/語", "yes", "no", "on", "off",
         "0x1f", "1_0", "12:30", "- x", "? q", "k:", "'q'", "\"dq\"", "a\\b", "<<", "=", "x#y", "deep/er/path/file.bin", "UP.Case", "semi;colon", "per%cent",
         "tab\there", "123", "1.5", ".hidden", "-dash", "a,b", "@at", "`bt", "é́", "\U0001F600", "new\nline"]
